@@ -39,7 +39,7 @@ pub struct Plan {
 
 pub const KINDS: &[&str] = &[
     "fwd", "fwd", "fwd", "fwd", "drop", "replay", "reflect", "own-response", "unsolicited", "wrong-version", "challenge", "open", "close", "redirect",
-    "self-signed", "sign-other-conn-challenge", "sign-used-challenge",
+    "self-signed", "sign-other-conn-challenge", "sign-used-challenge", "redial", "redial",
 ];
 
 fn gen(seed: u64, tier: Tier) -> Plan {
@@ -83,7 +83,7 @@ impl Scenario for C17 {
     fn meta(&self) -> Meta {
         Meta {
             level: "exploration",
-            rule: "run = honest nodes A (dials out through its static-peer path) and B (accepts connections), real RoutingThread/Network/Peer handshake code on both, attacker M in the middle of every connection plus up to 3 extra connections of its own; 2..8/12 attacker moves from {forward, drop, replay an observed message on the same or another connection, reflect an observed challenge back as a HandshakeChallenge, redirect a response to another connection, respond with own key, respond unsolicited, wrong-version response, send own challenge, open connection, close connection}; after every move the network runs to quiescence. Monitor (after every delivery to an honest node): a peer on connection c becomes Connected under K only if the delivered message is a response whose signature verifies under K over a challenge this node itself sent on c and that was still outstanding; a challenge authenticates at most once; K is never the node's own key; an authenticated (c,K) stays Connected with K and address_to_peers[K]==c while messages arrive on other connections. A faithful relay of the honest peer's answer is not flagged. distinct_nontrivial = distinct move sequences during which >= 1 challenge was outstanding when M acted.",
+            rule: "run = honest nodes A (dials out through its static-peer path) and B (accepts connections), real RoutingThread/Network/Peer handshake code on both, attacker M in the middle of every connection plus up to 3 extra connections of its own; 2..8/12 attacker moves from {forward, drop, replay an observed message on the same or another connection, reflect an observed challenge back as a HandshakeChallenge, redirect a response to another connection, respond with own key, respond unsolicited, wrong-version response, send own challenge, open connection, close connection, let time pass so that A redials its static peer on the same peer index (challenges of the closed connection are void)}; after every move the network runs to quiescence. Monitor (after every delivery to an honest node): a peer on connection c becomes Connected under K only if the delivered message is a response whose signature verifies under K over a challenge this node itself sent on c and that was still outstanding; a challenge authenticates at most once; K is never the node's own key; an authenticated (c,K) stays Connected with K and address_to_peers[K]==c while messages arrive on other connections. A faithful relay of the honest peer's answer is not flagged. distinct_nontrivial = distinct move sequences during which >= 1 challenge was outstanding when M acted.",
             real: &["RoutingThread::process_network_event", "Network::handle_new_peer/handle_handshake_challenge/handle_handshake_response", "Peer::initiate_handshake/handle_handshake_challenge/handle_handshake_response", "PeerCollection", "Message/Handshake codecs", "rate limiters"],
             stubs: &["SimNet with an attacker-controlled relay", "SimClock", "event-granularity scheduler"],
             assumptions: &["attacker cannot forge signatures (it only signs with its own key)", "sign/verify primitives trusted by the monitor"],
@@ -156,7 +156,21 @@ impl Scenario for C17 {
                         Some(saito_core::core::io::network_event::NetworkEvent::IncomingNetworkMessage { peer_index, buffer }) => Some((*peer_index, buffer.clone())),
                         _ => None,
                     };
+                    let disconnected: Option<u64> = match sim.nodes[n].net_in.front() {
+                        Some(saito_core::core::io::network_event::NetworkEvent::PeerDisconnected { peer_index, .. }) => Some(*peer_index),
+                        _ => None,
+                    };
                     sim.apply(act);
+                    // a challenge lives and dies with the connection it was issued on: once the node has
+                    // seen the connection go away, its outstanding challenges can authenticate nobody, even
+                    // if the node re-uses the peer index for the next connection to the same static peer
+                    if let Some(pi) = disconnected {
+                        for s in mon.sent.iter_mut() {
+                            if s.0 == (n, pi) {
+                                s.2 = true;
+                            }
+                        }
+                    }
                     let after: Vec<(u64, bool, Option<[u8; 33]>)> = {
                         let peers = block_on(sim.nodes[n].peer_lock.read());
                         peers.index_to_peers.iter().map(|(i, p)| (*i, matches!(p.peer_status, PeerStatus::Connected), p.public_key)).collect()
@@ -395,6 +409,22 @@ impl Scenario for C17 {
                     let c = pick_conn(mv.b);
                     sim.close_conn(c);
                     r.fault("close_connection", 1);
+                }
+                "redial" => {
+                    // time passes; A's reconnection timer dials its static peer again (same peer index,
+                    // new connection) and M answers the call
+                    sim.advance(2100 + 10_000 * (mv.a % 3));
+                    sim.tick(a, P_ROUTING);
+                    let pend: Vec<(usize, u64)> = sim.pending_connects.drain(..).collect();
+                    for (n, idx) in pend {
+                        let c = sim.connect_out_external(n, idx, 0);
+                        if conns.is_empty() {
+                            conns.push(c);
+                        } else {
+                            conns[0] = c;
+                        }
+                        r.fault("static_peer_redialled", 1);
+                    }
                 }
                 _ => {}
             }
